@@ -123,6 +123,95 @@ func randomSentence(c *Case, r *rand.Rand, budget int) []string {
 	return out
 }
 
+// coverSentences: for every rule one sentence whose derivation uses that rule (a chain of rules from the
+// start symbol down to the rule's left-hand side, everything else expanded by a random small derivation).
+// Gives inputs that drive a parser through every reduction, hence through all states that matter.
+func coverSentences(c *Case, r *rand.Rand) [][]string {
+	h := minHeights(c)
+	if _, ok := h[c.Start]; !ok {
+		return nil
+	}
+	// parent[A] = (rule index, position) by which A is first reached from the start symbol
+	type par struct{ rule, pos int }
+	parent := map[string]par{}
+	seen := map[string]bool{c.Start: true}
+	queue := []string{c.Start}
+	for len(queue) > 0 {
+		a := queue[0]
+		queue = queue[1:]
+		for ri, ru := range c.Rules {
+			if ru.Lhs != a || ruleHeight(h, ru) >= 1<<30 {
+				continue
+			}
+			for pi, s := range ru.Rhs {
+				if c.isNT(s) && !seen[s] {
+					seen[s] = true
+					parent[s] = par{ri, pi}
+					queue = append(queue, s)
+				}
+			}
+		}
+	}
+	var small func(sym string, depth int) []string
+	small = func(sym string, depth int) []string {
+		if !c.isNT(sym) {
+			return []string{sym}
+		}
+		var cands []Rule
+		for _, ru := range c.Rules {
+			if ru.Lhs == sym && ruleHeight(h, ru) < 1<<30 {
+				cands = append(cands, ru)
+			}
+		}
+		ru := cands[0]
+		if depth < 2 && r.Intn(2) == 0 {
+			ru = cands[r.Intn(len(cands))]
+		} else {
+			for _, x := range cands {
+				if ruleHeight(h, x) < ruleHeight(h, ru) {
+					ru = x
+				}
+			}
+		}
+		var out []string
+		for _, s := range ru.Rhs {
+			out = append(out, small(s, depth+1)...)
+		}
+		return out
+	}
+	var res [][]string
+	for ri, ru := range c.Rules {
+		if !seen[ru.Lhs] || ruleHeight(h, ru) >= 1<<30 {
+			continue
+		}
+		// expand rule ri, then wrap it by the chain up to the start symbol
+		var cur []string
+		for _, s := range ru.Rhs {
+			cur = append(cur, small(s, 1)...)
+		}
+		a := ru.Lhs
+		for a != c.Start {
+			p := parent[a]
+			pr := c.Rules[p.rule]
+			var out []string
+			for pi, s := range pr.Rhs {
+				if pi == p.pos {
+					out = append(out, cur...)
+				} else {
+					out = append(out, small(s, 1)...)
+				}
+			}
+			cur = out
+			a = pr.Lhs
+		}
+		_ = ri
+		if len(cur) <= 80 {
+			res = append(res, cur)
+		}
+	}
+	return res
+}
+
 // GenInputs returns inputs as ordinal sequences (1-based index into
 // c.Terminals(); 0 = a token code the grammar does not know).
 func GenInputs(c *Case, r *rand.Rand, limit, kmax, nrandom int) [][]int {
@@ -168,10 +257,19 @@ func GenInputs(c *Case, r *rand.Rand, limit, kmax, nrandom int) [][]int {
 	} else {
 		add([]int{})
 	}
-	// random sentences, their mutations, unknown tokens
-	for i := 0; i < nrandom; i++ {
-		s := randomSentence(c, r, 2+r.Intn(6))
-		if s == nil || len(s) > 60 {
+	// random sentences and one sentence per rule (coverage), their mutations, unknown tokens
+	var pool [][]string
+	if nrandom > 0 {
+		pool = coverSentences(c, r)
+	}
+	for i := 0; i < nrandom+len(pool); i++ {
+		var s []string
+		if i < len(pool) {
+			s = pool[i]
+		} else {
+			s = randomSentence(c, r, 2+r.Intn(6))
+		}
+		if s == nil || len(s) > 80 {
 			continue
 		}
 		in := make([]int, len(s))
